@@ -19,6 +19,7 @@ type Step struct {
 	Self int    `json:"self"` // object id of the receiver, 0 for class-level calls
 	Args []any  `json:"args"` // ints, token pairs, literal sequences, names
 	EC   string `json:"ec"`   // element class for class-level calls: "V", "K" or "A"
+	NV   bool   `json:"nv"`   // unlogged step: do not look at the objects afterwards (no projection)
 }
 
 // Script is a history; steps before LogFrom are executed but only the world
@@ -27,6 +28,7 @@ type Script struct {
 	ID      int    `json:"id"`
 	Steps   []Step `json:"steps"`
 	LogFrom int    `json:"log_from"`
+	Pre     []any  `json:"pre"` // the model's pre-world of the first logged step (scripts that do not look before it)
 }
 
 // Line is one trace line.
@@ -252,12 +254,20 @@ type Runner interface {
 func (in *Interp[K, V]) RunScript(sc Script, out func(Line), watchdog time.Duration) bool {
 	in.Reset()
 	var last = []any{}
+	var skipped = false // an unlogged step was not executed (not available for this codec): the model's prediction does not apply
 	for i, st := range sc.Steps {
 		if i == sc.LogFrom {
-			// the world reached by the unlogged prefix
+			// the world reached by the unlogged prefix (as seen, or as the model has it)
+			if sc.Pre != nil && i > 0 {
+				if skipped {
+					last = in.Project()
+				} else {
+					last = sc.Pre
+				}
+			}
 			out(Line{T: "reset", SID: sc.ID, W: last, Args: []any{}, R: map[string]any{"t": "none"}})
 		}
-		var line, ok = in.guarded(sc.ID, st, watchdog)
+		var line, ok = in.guarded(sc.ID, st, watchdog, i < sc.LogFrom && st.NV)
 		if i >= sc.LogFrom || !ok {
 			if i < sc.LogFrom {
 				out(Line{T: "reset", SID: sc.ID, W: last, Args: []any{}, R: map[string]any{"t": "none"}})
@@ -267,17 +277,28 @@ func (in *Interp[K, V]) RunScript(sc Script, out func(Line), watchdog time.Durat
 		if !ok {
 			return false
 		}
+		if line.T == "skip" {
+			skipped = true
+		}
 		last = line.W
 	}
 	return true
 }
 
 // guarded runs Exec plus the projection in a goroutine under a watchdog.
-func (in *Interp[K, V]) guarded(sid int, st Step, watchdog time.Duration) (Line, bool) {
+func (in *Interp[K, V]) guarded(sid int, st Step, watchdog time.Duration, noView bool) (Line, bool) {
 	var done = make(chan Line, 1)
 	go func() {
 		var line = in.Exec(sid, st)
-		line.W = in.Project()
+		if noView {
+			// book-keeping of the harness only: which association objects catalogs hold
+			for _, o := range in.objs {
+				in.markOwned(o)
+			}
+			line.W = []any{}
+		} else {
+			line.W = in.Project()
+		}
 		done <- line
 	}()
 	select {
